@@ -357,6 +357,11 @@ class Arr(object):
         pos, shape = self._resolve(index)
         if shape == () and not _has_adv_or_slice(index):
             return self.buf.data[self.pos[pos[0]]]
+        idx = index if isinstance(index, tuple) else (index,)
+        if any(isinstance(i, Arr) for i in idx):
+            # advanced (integer array) indexing returns a copy in numpy
+            d = self.buf.data
+            return Arr(shape, [d[self.pos[p]] for p in pos], kind=self.kind)
         return self.view(shape, [self.pos[p] for p in pos])
 
     def __setitem__(self, index, value):
@@ -716,6 +721,7 @@ def s_neg(a):
 
 
 POSITIVE_ATOMS = set()     # atoms the running rule assumes to be positive reals (recorded in its evidence)
+ORDER_RANK = {}            # ordering hypothesis: atom -> rank (a < b iff rank[a] < rank[b]); used for comparisons only
 
 
 def poly_sign(a):
@@ -829,6 +835,10 @@ def s_cmp(op, a, b):
         r = hook(op, a)
         if r is not None:
             return r
+    if ORDER_RANK and isinstance(a, (Poly, int, Fr)) and isinstance(b, (Poly, int, Fr)):
+        sg = _rank_sign(a, b)
+        if sg is not None:
+            return _CMP[op](sg, 0)
     if isinstance(a, (Poly, Rat, int, Fr)) and isinstance(b, (Poly, Rat, int, Fr)):
         # real constants in Q(sqrt2)
         try:
@@ -847,6 +857,42 @@ def s_cmp(op, a, b):
                 pass
         return Unk(('cmp', op, a, b))
     return Unk(('cmp', op, a, b))
+
+
+def _rank_of(p):
+    """rank of a Poly that is a single ranked atom (ordering hypothesis), else None"""
+    if len(p.t) == 1:
+        (mono, c), = p.t.items()
+        if len(mono) == 1 and mono[0][1] == 1 and mono[0][0] in ORDER_RANK:
+            from .algebra import Z8
+            if c == Z8.ONE:
+                return ORDER_RANK[mono[0][0]]
+    return None
+
+
+def _rank_sign(a, b):
+    """sign of a - b when a - b == s - t for two atoms ranked by the ordering hypothesis, else None"""
+    from .algebra import Poly, Z8
+    try:
+        d = Poly.of(a) - Poly.of(b)
+    except Exception:
+        return None
+    if len(d.t) != 2:
+        return None
+    plus = minus = None
+    for mono, c in d.t.items():
+        if len(mono) != 1 or mono[0][1] != 1 or mono[0][0] not in ORDER_RANK:
+            return None
+        if c == Z8.ONE:
+            plus = mono[0][0]
+        elif c == -Z8.ONE:
+            minus = mono[0][0]
+        else:
+            return None
+    if plus is None or minus is None:
+        return None
+    r = ORDER_RANK[plus] - ORDER_RANK[minus]
+    return (r > 0) - (r < 0)
 
 
 def _raise_cmp(a, b):
